@@ -49,6 +49,34 @@ Definition page_rank_q (v : view) (d : Q) (iters : nat) : list Q :=
   | _ => pr_iter v n d iters (repeat (1 / inject_Z (Z.of_nat n)) n)
   end.
 
+(* The same computation with every partial sum reduced to lowest terms: what the differential run
+   executes (without it the denominators of a 7-node sum have thousands of bits).  Qred is the
+   identity up to Qeq, so this is pointwise Qeq to page_rank_q (Proofs/PageRankP.v). *)
+Definition qsum_r (l : list Q) : Q := fold_left (fun a x => Qred (a + x)) l 0.
+Definition pr_pi_r (v : view) (n : nat) (d : Q) (ranks : list Q) : list Q :=
+  let nb := inject_Z (Z.of_nat n) in
+  map (fun x => qsum_r (map (fun wr => pr_term d nb (links v (fst wr) x) (out_deg v (fst wr)) (snd wr))
+                            (combine (seq 0 n) ranks)))
+      (seq 0 n).
+Definition pr_step_r (v : view) (n : nat) (d : Q) (ranks : list Q) : option (list Q) :=
+  let pi := pr_pi_r v n d ranks in
+  let s := qsum_r pi in
+  if Qeq_bool s 0 then None else Some (map (fun r => Qred (r / s)) pi).
+Fixpoint pr_iter_r (v : view) (n : nat) (d : Q) (k : nat) (ranks : list Q) : list Q :=
+  match k with
+  | O => ranks
+  | S k' => match pr_step_r v n d ranks with
+            | Some r' => pr_iter_r v n d k' r'
+            | None => ranks
+            end
+  end.
+Definition page_rank_qr (v : view) (d : Q) (iters : nat) : list Q :=
+  let n := vnode_count v in
+  match n with
+  | O => []
+  | _ => pr_iter_r v n d iters (repeat (1 / inject_Z (Z.of_nat n)) n)
+  end.
+
 (* round(q * 10^9), half up *)
 Definition scale9 (q : Q) : Z :=
   ((2 * Qnum q * 1000000000 + Zpos (Qden q)) / (2 * Zpos (Qden q)))%Z.
@@ -59,4 +87,4 @@ Definition TAG_SCORES := 46%nat.
 Definition prank_query (v : view) (o : line) : list line :=
   let a := snd o in
   let d := Qmake (argz a 0) (Z.to_pos (argz a 1)) in
-  [(TAG_SCORES, map scale9 (page_rank_q v d (arg a 2)))].
+  [(TAG_SCORES, map scale9 (page_rank_qr v d (arg a 2)))].
